@@ -302,9 +302,23 @@ func c10build(c c10case) c10built {
 				ok = false
 			}
 			switch t.TType {
-			case nfp.TokenTypeFraction, nfp.TokenTypeDenominator, nfp.TokenTypeSwitchArgument:
+			case nfp.TokenTypeDenominator, nfp.TokenTypeSwitchArgument:
 				ok = false
 				b.why = "unmodelled-token"
+			case nfp.TokenTypeFraction:
+				// modelled (continued-fraction search) unless the section also has an exponent token, the
+				// number is not finite, or its fraction is so small that int64(1/frac) overflows
+				fr := math.Abs(pf - math.Trunc(pf))
+				if math.IsInf(pf, 0) || math.IsNaN(pf) || (fr != 0 && fr < 1e-18) {
+					ok = false
+					b.why = "fraction-of-nonfinite-or-tiny"
+				}
+				for _, t2 := range s.Items {
+					if t2.TType == nfp.TokenTypeExponential {
+						ok = false
+						b.why = "unmodelled-token"
+					}
+				}
 			case nfp.TokenTypeDateTimes:
 				if strings.ContainsAny(strings.ToUpper(t.TValue), "GE") {
 					hasEraTok = true
@@ -1651,6 +1665,21 @@ func runC10(r *Run, rng *Rng, replay string) {
 	for i := 0; i < 400*scale; i++ {
 		c10norm(r, c10randValue(rng))
 	}
+	// 6e. fraction formats
+	c10fraction(r, "3.14159", 2, true)
+	c10fraction(r, "3.14159", 1, false)
+	c10fraction(r, "1.5", 1, true)
+	c10fraction(r, "0.3", 1, true)
+	for i := 0; i < 150*scale; i++ {
+		v := fmt.Sprintf("%d.%d", rng.Intn(2000), rng.Intn(100000))
+		if rng.Chance(30) {
+			v = rng.Pick([]string{"0.5", "0.25", "0.3333333333333333", "2.6180339887", "0.001", "0", "5", "12345.999", "0.9999999999999999", "1e-7", "-2.75", "0.14159", "1e15", "0.0625"})
+		}
+		if rng.Chance(25) {
+			v = "-" + strings.TrimLeft(v, "-")
+		}
+		c10fraction(r, v, rng.Range(1, 3), !rng.Chance(20))
+	}
 	// 7. locales: every language id / code through AM/PM, month and weekday tokens
 	ids, codes := xl.VerifC10LanguageCodes()
 	sort.Ints(ids)
@@ -1714,6 +1743,8 @@ func c10replay(r *Run, path string) {
 				customs = append(customs, [2]string{w[k], unhx(w[k+1])})
 			}
 			c10glue(r, w[1] == "1", w[2] == "1", atoi(w[3]), &c10o{atoi(w[4]), unhx(w[5]), unhx(w[6]), unhx(w[7])}, unhx(w[8]), customs)
+		case w[0] == "frac" && len(w) == 4:
+			c10fraction(r, unhx(w[1]), atoi(w[2]), w[3] == "1")
 		case w[0] == "norm" && len(w) == 2:
 			c10norm(r, unhx(w[1]))
 		case w[0] == "bcode" && len(w) == 5:
@@ -2216,4 +2247,93 @@ func c10glue(r *Run, d1904, styled bool, id int, o *c10o, value string, customs 
 		r.Stat("glue:normalised")
 	}
 	c10fmt(r, c)
+}
+
+// ---------------------------------------------------------------------------
+// fraction formats: what is printed vs the closest fraction within the digit budget
+
+var (
+	c10fracMixed = regexp.MustCompile(`^(-?)([0-9]+) (?:([0-9]+)/([0-9]+)| +)$`)
+	c10fracBare  = regexp.MustCompile(`^(-?)([0-9]+)/([0-9]+)$`)
+)
+
+// c10fraction: code is `# ?/?`-like (mixed) or `?/?`-like (bare) with k question marks per side.
+func c10fraction(r *Run, value string, k int, mixed bool) {
+	q := strings.Repeat("?", k)
+	code := q + "/" + q
+	if mixed {
+		code = "# " + code
+	}
+	c := c10mk(true, false, value, code, nil)
+	rep := fmt.Sprintf("frac %s %d %s", hx(value), k, b01(mixed))
+	c.rep = rep
+	out, ok := c10fmt(r, c)
+	line := c10lastLine
+	x, xok := c10exact(value)
+	if !ok || !xok || out == value {
+		return
+	}
+	ax := new(big.Rat).Abs(x)
+	if f, _ := ax.Float64(); math.IsInf(f, 0) || f > 1e15 {
+		return
+	}
+	var got *big.Rat
+	if mixed {
+		m := c10fracMixed.FindStringSubmatch(out)
+		if m == nil {
+			r.Fail("fraction:shape", fmt.Sprintf("format(%q, %q) = %q is not `int num/den`", value, code, out), line, rep)
+			return
+		}
+		got, _ = new(big.Rat).SetString(m[2])
+		if m[3] != "" {
+			fr, ok := new(big.Rat).SetString(m[3] + "/" + m[4])
+			if !ok {
+				return
+			}
+			got.Add(got, fr)
+		}
+	} else {
+		m := c10fracBare.FindStringSubmatch(out)
+		if m == nil {
+			r.Stat("fraction:bare-other-shape")
+			return
+		}
+		var ok bool
+		if got, ok = new(big.Rat).SetString(m[2] + "/" + m[3]); !ok {
+			return
+		}
+	}
+	// the closest fraction with a denominator of at most k digits
+	lim := 1
+	for i := 0; i < k; i++ {
+		lim *= 10
+	}
+	best := new(big.Rat).Set(ax) // error of the best candidate
+	fracPart := new(big.Rat).Sub(ax, new(big.Rat).SetInt(new(big.Int).Quo(ax.Num(), ax.Denom())))
+	target := fracPart
+	if !mixed {
+		target = ax
+	}
+	for den := 1; den < lim; den++ {
+		t := new(big.Rat).Mul(target, big.NewRat(int64(den), 1))
+		n := new(big.Int).Quo(new(big.Int).Add(new(big.Int).Mul(t.Num(), big.NewInt(2)), t.Denom()), new(big.Int).Mul(t.Denom(), big.NewInt(2)))
+		e := new(big.Rat).Sub(target, new(big.Rat).SetFrac(n, big.NewInt(int64(den))))
+		e.Abs(e)
+		if e.Cmp(best) < 0 {
+			best = e
+		}
+	}
+	err := new(big.Rat).Sub(got, ax)
+	err.Abs(err)
+	slack := new(big.Rat).Mul(ax, big.NewRat(1, 1<<50))
+	slack.Add(slack, big.NewRat(1, 1000000000000))
+	if err.Cmp(new(big.Rat).Add(best, slack)) > 0 {
+		sig := "fraction:not-closest"
+		if !mixed {
+			sig = "fraction:improper-concatenated"
+		}
+		r.Fail(sig, fmt.Sprintf("format(%q, %q) = %q: off by %s, a fraction with at most %d denominator digits comes within %s", value, code, out, err.FloatString(8), k, best.FloatString(8)), line, rep)
+	} else {
+		r.Stat("fraction-ok")
+	}
 }
